@@ -561,7 +561,7 @@ pub proof fn lemma_waiting_total(c: Seq<Claim>, b: &BlockInfo)
 pub open spec fn str_cursor(c: Option<String>) -> Option<Seq<u8>> { match c { Some(s) => Some(utf8(s@)), None => None } }
 
 @fn contracts/cw4-stake/src/contract.rs list_members [closures: 2]
-@ensures C20.list_members_page
+@ensures C20.list_members_page C09
     r is Ok ==> ({
         let pg = page(listing(deps.storage.view(), "members"@, Seq::<u8>::empty(), false), str_cursor(start_after), limit);
         r->Ok_0.members@.len() == pg.len() && forall|i: int| 0 <= i < pg.len() ==> utf8((#[trigger] r->Ok_0.members@[i]).addr@) == pg[i].0
